@@ -2567,6 +2567,9 @@ func SetStreamPosition(vm *VM, streamOrAlias, position Term, k Cont, env *Env) *
 	case Variable:
 		return Error(InstantiationError(env))
 	case Integer:
+		if p < 0 {
+			return Error(domainError(validDomainStreamPosition, position, env))
+		}
 		switch _, err := s.Seek(int64(p), 0); err {
 		case nil:
 			return k(env)
